@@ -147,7 +147,7 @@ def far_scenarios(seed):
     # event functions of very different magnitude monitored together (down to 1e-18 next to O(1) and 1e6): each one's crossings are its own
     for (t0, tf) in [(0.0, 6.0), (0.0, -6.0), (-2.0, 4.0)]:
         c = r.uniform(-0.7, 0.7)
-        scales = [1e-18, 1.0, 1e-12, 1e6, 1e-15]
+        scales = [1e-18, 1.0, 1e-12, 1e6, 1e-15, 1e-200]      # 1e-200: products of two values underflow (defect P34, repaired)
         evs = [eventsim.make_event("y0", c + 0.01 * k, s_ * r.choice([1, -1]), 0, False) for k, s_ in enumerate(scales)]
         out.append((dict(method=r.choice(["RK4Solver", "RK45CKSolver"]), t0=t0, tf=tf, dt=0.1, dense=r.random() < 0.5), evs))
     return out
@@ -235,7 +235,7 @@ def analyse(ctx, sc, evs, ode, spy, exc, focus, lines, pending):
             vals = [g(float(tt), yy) for tt, yy in zip(ode.t, ode.y)]
             for k in range(len(vals) - 1):
                 a, b = vals[k], vals[k + 1]
-                if a * b < 0:
+                if (a < 0 < b) or (b < 0 < a):       # by sign, not by product: products of tiny values underflow
                     comp = g.direction == 0 or ((b > a) == (g.direction > 0))
                     if not comp:
                         continue
